@@ -470,7 +470,7 @@ class Class(object):
     def __str__(self):
         values = list()
         for attr, ty in get_metaclass(self).attributes:
-            value = getattr(self, attr)
+            value = getattr(self, attr, None)
             value = xtuml.serialize_value(value, ty)
             values.append('%s=%s' % (attr, value))
         
